@@ -13,6 +13,12 @@ Three kinds of case.
 `fd`   descriptor bookkeeping of the three dispatch paths on real descriptors: real
        `LocalFdExecutor.work`, real `delegate_work_to_pool` + `RemoteFdExecutor.receive_from_work_queue`
        (send_handle / recv_handle / dup / os.close(work_id)), real `start_threaded_work`.
+`ho`   the (address, descriptor) hand-off of an accepted connection to a remote worker: REAL
+       `delegate_work_to_pool` in k threads on one real Pipe + Lock with an instrumented lock /
+       connection / send_handle that let a turn-based scheduler force any interleaving (a thread that
+       finds the lock held just loses its turn), REAL `RemoteFdExecutor.receive_from_work_queue`
+       on the other end; vs `Modes.hrun lockedProg`; oracle: every hand-off's address and descriptor
+       arrive as a pair, in order, no exception.
 `live` LIVE differential run: one scenario of the corpus against real `proxy.Proxy(...)` instances
        in the three modes (acceptors = workers = nw) on loopback with in-process origin servers;
        per mode the canonical transcript (per client: bytes received then EOF/RST; per origin
@@ -50,11 +56,14 @@ THEOREMS = [
     'Px.Modes.C17_same_step', 'Px.Modes.C17_C01_in_all_modes', 'Px.Modes.C17_fd_bookkeeping',
     'Px.Modes.C17_local_remote_identical', 'Px.Modes.C17_same_transcript_partial',
     'Px.Modes.C17_flush_vs_deferral', 'Px.Modes.C17_raised_pending_differs', 'Px.Modes.C17_raised_difference',
+    'Px.Modes.C17_handoff_atomic', 'Px.Modes.C17_handoff_needs_lock',
 ]
 NO_FORK = True
 RULE = ('h: conversation script (rounds of readiness + recv/send outcomes, is_inactive clock outcomes, _flush '
         'script) after a real CONNECT / GET / 400 / 404 / 407 / 502 establishment, run executor-style and through '
-        'the real threaded run() vs Modes.localRun / Modes.threadedRun; fd: dispatch path x finished; live: '
+        'the real threaded run() vs Modes.localRun / Modes.threadedRun; fd: dispatch path x finished; ho: every '
+        'schedule of 2 delegate threads up to length 6 (8 thorough), of 3 up to length 3 (5), random schedules of '
+        '3-5 threads, each completed deterministically; live: '
         'scenario x nw, each observed under the three modes with real Proxy processes; distinct by canonical '
         'JSON; non-trivial = h case that makes at least one handle_events call / every live case')
 ASSUMPTIONS = [
@@ -524,6 +533,18 @@ def _flags(mode):
     return _FLAGS[mode]
 
 
+def _preload():
+    """import and initialise in the parent what the forked observers need (fork is cheap, importing is not)"""
+    import proxy.core.work.delegate     # noqa: F401
+    import proxy.core.work.fd           # noqa: F401
+    import proxy.proxy                  # noqa: F401
+    for m in MODE_ORDER:
+        _flags(m)
+
+
+_preload()
+
+
 def _peer_eof(b, wait=2.0):
     b.settimeout(wait)
     try:
@@ -665,6 +686,256 @@ def _run_fd_inner(case):
                 c.close()
             except OSError:
                 pass
+
+
+# ==========================================================================
+# ho: the (address, descriptor) hand-off to a remote worker under a forced interleaving
+# ==========================================================================
+
+def ho_full_sched(case):
+    """the case's schedule followed by a completion suffix (two rounds of five steps per thread:
+    the lock holder finishes in its block, then everybody else does)"""
+    k = case['k']
+    return list(case['sched']) + [t for _ in range(2) for t in range(k) for _ in range(5)]
+
+
+class _Turns:
+    """turn-based scheduler: every instrumented operation of delegate thread `tid` (lock acquire attempt,
+    conn.send, send_handle, lock release) consumes the next schedule entry naming `tid`"""
+
+    def __init__(self, sched, k):
+        self.sched = list(sched)
+        self.pos = 0
+        self.cond = threading.Condition()
+        self.done = set()
+        self.log = []
+        self.k = k
+
+    def turn(self, tid):
+        with self.cond:
+            t_end = time.time() + 20
+            while True:
+                while self.pos < len(self.sched) and self.sched[self.pos] in self.done:
+                    self.pos += 1
+                    self.cond.notify_all()
+                if self.pos >= len(self.sched):
+                    return False            # schedule exhausted: free run
+                if self.sched[self.pos] == tid:
+                    return True             # caller performs its op and then calls step()
+                if time.time() > t_end:
+                    raise TimeoutError('turn never came')
+                self.cond.wait(0.2)
+
+    def step(self, tid, what):
+        with self.cond:
+            if what is not None:
+                self.log.append((tid, what))
+            if self.pos < len(self.sched) and self.sched[self.pos] == tid:
+                self.pos += 1
+            self.cond.notify_all()
+
+    def finish(self, tid):
+        with self.cond:
+            self.done.add(tid)
+            self.cond.notify_all()
+
+
+class _HoLock:
+    def __init__(self, real, turns, tid):
+        self.real, self.turns, self.tid = real, turns, tid
+
+    def __enter__(self):
+        while True:
+            scheduled = self.turns.turn(self.tid)
+            if not scheduled:
+                self.real.acquire()
+                self.turns.step(self.tid, 'acq')
+                return self
+            if self.real.acquire(False):
+                self.turns.step(self.tid, 'acq')
+                return self
+            self.turns.step(self.tid, None)     # blocked: the step is a no-op
+
+    def __exit__(self, *a):
+        self.turns.turn(self.tid)
+        self.real.release()
+        self.turns.step(self.tid, 'rel')
+        return False
+
+    def acquire(self, *a, **kw):
+        self.__enter__()
+        return True
+
+    def release(self):
+        self.__exit__()
+
+
+class _HoConn:
+    def __init__(self, real, turns, tid):
+        self.real, self.turns, self.tid = real, turns, tid
+
+    def send(self, obj):
+        self.turns.turn(self.tid)
+        self.real.send(obj)
+        self.turns.step(self.tid, 'a')
+
+    def fileno(self):
+        return self.real.fileno()
+
+    def __getattr__(self, name):
+        return getattr(self.real, name)
+
+
+_HOCACHE = {}
+
+
+def run_ho(case):
+    k_ = _key(case)
+    if k_ not in _HOCACHE:
+        _HOCACHE[k_] = _forked(_run_ho_inner, case, ('handoff crashed', 'crashed'))
+    return _HOCACHE[k_]
+
+
+def _ho_batch(cases):
+    return [list(_run_ho_inner(c)) for c in cases]
+
+
+def _prefetch_ho(cases, chunk=40):
+    """observe many hand-off cases per forked child (a fork of the engine process costs more than a case)"""
+    todo = [c for c in cases if c.get('kind') == 'ho' and _key(c) not in _HOCACHE]
+    for i in range(0, len(todo), chunk):
+        part = todo[i:i + chunk]
+        res = _forked(_ho_batch, part, None, budget=40 + 2 * len(part))
+        if res is not None and len(res) == len(part):
+            for c, r in zip(part, res):
+                _HOCACHE[_key(c)] = tuple(r)
+        # else: observed one by one on demand (run_ho)
+
+
+def _forked(fn, case, crashed, budget=40):
+    rd, wr = os.pipe()
+    pid = os.fork()
+    if pid == 0:
+        try:
+            os.close(rd)
+            signal.alarm(budget)
+            try:
+                res = fn(case)
+            except BaseException as e:      # noqa
+                res = ('harness-exc %s: %s' % (type(e).__name__, str(e)[:100]), 'harness-exc')
+            os.write(wr, json.dumps(res).encode())
+        finally:
+            os._exit(0)
+    os.close(wr)
+    data = b''
+    sel = selectors.DefaultSelector()
+    sel.register(rd, selectors.EVENT_READ)
+    t_end = time.time() + budget + 5
+    while time.time() < t_end:
+        if sel.select(0.5):
+            d = os.read(rd, 65536)
+            if not d:
+                break
+            data += d
+    sel.close()
+    os.close(rd)
+    try:
+        os.kill(pid, signal.SIGKILL)
+    except OSError:
+        pass
+    try:
+        os.waitpid(pid, 0)
+    except OSError:
+        pass
+    try:
+        return tuple(json.loads(data.decode()))
+    except ValueError:
+        return crashed
+
+
+def _run_ho_inner(case):
+    """REAL delegate_work_to_pool in k threads on one real Pipe + Lock, REAL
+    RemoteFdExecutor.receive_from_work_queue on the other end.  -> (line, failure or None)"""
+    import proxy.core.work.delegate as D
+    from proxy.core.work.fd import RemoteFdExecutor
+    k = case['k']
+    turns = _Turns(ho_full_sched(case), k)
+    pr, pw = multiprocessing.Pipe(duplex=True)
+    lock = multiprocessing.Lock()
+    listener = socket.socket()
+    listener.bind(('127.0.0.1', 0))
+    listener.listen(16)
+    clients, accepted = [], []
+    for _ in range(k):
+        clients.append(socket.create_connection(listener.getsockname()))
+        accepted.append(listener.accept())
+    inode = {os.fstat(c.fileno()).st_ino: i for i, (c, _) in enumerate(accepted)}
+    addr_ix = {tuple(a): i for i, (_, a) in enumerate(accepted)}
+    tls = threading.local()
+    real_send_handle = D.send_handle
+
+    def send_handle(conn, handle, pid):
+        turns.turn(tls.tid)
+        real_send_handle(conn, handle, pid)
+        turns.step(tls.tid, 'f')
+    D.send_handle = send_handle
+    errors = []
+
+    def body(i):
+        tls.tid = i
+        try:
+            D.delegate_work_to_pool(os.getpid(), _HoConn(pw, turns, i), _HoLock(lock, turns, i),
+                                    accepted[i][0], accepted[i][1], None)
+        except BaseException as e:      # noqa
+            errors.append('%d:%s' % (i, type(e).__name__))
+        finally:
+            turns.finish(i)
+    ths = [threading.Thread(target=body, args=(i,), daemon=True) for i in range(k)]
+    for t in ths:
+        t.start()
+    for t in ths:
+        t.join(25)
+    D.send_handle = real_send_handle
+    if any(t.is_alive() for t in ths):
+        return ('handoff hang', 'delegate thread hung')
+    pipe = ['%s%d' % (w, t) for t, w in turns.log if w in ('a', 'f')]
+    acq = [str(t) for t, w in turns.log if w == 'acq']
+    held = not lock.acquire(False)
+    if not held:
+        lock.release()
+    # the worker side
+    ex = RemoteFdExecutor('1', pr, _flags('remote'))
+    got = []
+    ex.work = lambda fileno, addr, conn: got.append((addr, fileno))
+    exc = None
+    for _ in range(k):
+        if not pr.poll(3):
+            exc = 'nothing-to-receive'
+            break
+        try:
+            ex.receive_from_work_queue()        # real: addr = recv(); fileno = recv_handle(); work(fileno, addr, None)
+        except BaseException as e:      # noqa
+            exc = type(e).__name__
+            break
+    pairs = []
+    for addr, fileno in got:
+        a = addr_ix.get(tuple(addr), -1) if isinstance(addr, (tuple, list)) else -1
+        try:
+            f = inode.get(os.fstat(fileno).st_ino, -1)
+        except OSError:
+            f = -1
+        pairs.append((a, f))
+    csv = lambda l: ','.join(l) if l else '.'      # noqa: E731
+    recv = 'exc' if (exc or errors) else csv(['%d:%d' % p for p in pairs])
+    line = 'handoff pipe=%s acq=%s lock=%d recv=%s' % (csv(pipe), csv(acq), held, recv)
+    fail = None
+    if errors:
+        fail = 'handoff: delegate raised %s' % errors[0]
+    elif exc:
+        fail = 'handoff: worker receive side raised %s (pipe order %s)' % (exc, csv(pipe))
+    elif any(a != f or a < 0 for a, f in pairs) or len(pairs) != k:
+        fail = 'handoff: address and descriptor not received as a pair (%s)' % csv(['%d:%d' % p for p in pairs])
+    return (line, fail)
 
 
 # ==========================================================================
@@ -1072,6 +1343,11 @@ def build_convs(case, pport):
             # does not read a large response, then sends a follow-up request that makes the pipeline parser raise
             return [('send', get(b'/len/%d' % sz)), ('sleep', 1.0),
                     ('send', get(b'/len/1', b'Content-Length: x\r\n')), ('sleep', 0.3), ('eof',)]
+        if scn == 'burst':
+            # many connections at the same moment (several acceptors handing off to one worker)
+            return [('send', b'GET /burst-%d HTTP/1.1\r\nHost: px\r\n\r\n' % i), ('eof',)]
+        if scn == 'burst_fwd':
+            return [('send', get(b'/len/%d' % (100 + i), b'Connection: close\r\n')), ('http',), ('eof',)]
         if scn == 'client_closes_idle':
             return [('shut',), ('eof',)]
         if scn == 'mixed':
@@ -1094,8 +1370,15 @@ QUICK_SCENARIOS = [
 ]
 
 
-def live_case(scn, size, conc, nw):
-    return {'kind': 'live', 'scn': scn, 'size': size, 'conc': conc, 'nw': nw}
+# 4 acceptors x 1 worker, 16-50 clients at once (every hand-off goes to the same worker pipe)
+BURSTS = [('burst', 1, 16), ('burst', 2, 48), ('burst_fwd', 1, 24)]
+
+
+def live_case(scn, size, conc, nw, na=None):
+    c = {'kind': 'live', 'scn': scn, 'size': size, 'conc': conc, 'nw': nw}
+    if na is not None and na != nw:
+        c['na'] = na            # acceptors (default: as many as workers)
+    return c
 
 
 # ---- one configuration = one Proxy instance, all its scenarios ---------------------
@@ -1124,7 +1407,15 @@ def _run_scenario(case, pport, origins):
     for o in origins.values():
         o.reset()
     convs = [_Conv(('127.0.0.1', pport), st) for st in build_convs(case, pport)]
-    ths = [threading.Thread(target=c.run, daemon=True) for c in convs]
+    gate = threading.Barrier(len(convs))
+
+    def go(c):
+        try:
+            gate.wait(5)            # all conversations connect at the same moment
+        except threading.BrokenBarrierError:
+            pass
+        c.run()
+    ths = [threading.Thread(target=go, args=(c,), daemon=True) for c in convs]
     t0 = time.time()
     for t in ths:
         t.start()
@@ -1147,7 +1438,7 @@ def _run_scenario(case, pport, origins):
     return lines + sorted(ol)
 
 
-def _run_config(mode, nw, fs, cases):
+def _run_config(mode, nw, fs, cases, na=None):
     """start the real Proxy once, run the scenarios, stop it.  -> {case key: [lines]}"""
     from proxy.proxy import Proxy
     _ensure_plugins()
@@ -1160,7 +1451,7 @@ def _run_config(mode, nw, fs, cases):
     dead.bind(('127.0.0.1', 0))         # bound, never listening: connect() is refused
     ORIGIN['http'], ORIGIN['echo'], ORIGIN['dead'] = origins['http'].port, origins['echo'].port, dead.getsockname()[1]
     args = list(MODES[mode]) + [
-        '--num-workers', str(nw), '--num-acceptors', str(nw), '--log-level', 'CRITICAL',
+        '--num-workers', str(nw), '--num-acceptors', str(na or nw), '--log-level', 'CRITICAL',
         '--hostname', '127.0.0.1', '--port', '0', '--enable-web-server', '--enable-reverse-proxy',
         '--enable-static-server', '--static-server-dir', d, '--min-compression-length', '1000000000',
         '--plugins', 'harness.c17.C17WebPlugin,harness.c17.C17ReversePlugin',
@@ -1182,7 +1473,7 @@ def _run_config(mode, nw, fs, cases):
             o.start()
         procs = sorted(set(_descendants(os.getpid())) - before)
         # warm-up conversation (not recorded): every process has served or at least started
-        for _ in range(2 * nw + 1):
+        for _ in range(2 * max(nw, na or nw) + 1):
             w = _Conv(('127.0.0.1', pport), [('send', b'GET /c17/hello HTTP/1.1\r\nHost: px\r\n\r\n'), ('http',)])
             w.run()
         # baseline once every process has finished starting (event loops, queues): stable for 0.4 s
@@ -1250,13 +1541,13 @@ def _cfg_worker(jobs, out_path):
         pass
     logging.disable(logging.CRITICAL)
     with open(out_path, 'w') as f:
-        for mode, nw, fs, cases in jobs:
+        for mode, nw, na, fs, cases in jobs:
             def on_alarm(signum, frame):
                 raise TimeoutError('configuration timed out')
             signal.signal(signal.SIGALRM, on_alarm)
             signal.alarm(int(30 + SCN_TIMEOUT + 8 * len(cases)))
             try:
-                res = _run_config(mode, nw, fs, cases)
+                res = _run_config(mode, nw, fs, cases, na)
             except BaseException as e:      # noqa
                 res = {_key(c): ['hang' if isinstance(e, TimeoutError) else 'harness-exc %s' % type(e).__name__]
                        for c in cases}
@@ -1282,25 +1573,25 @@ def _prefetch(cases, retry=True):
         return
     groups = {}
     for c in todo:
-        groups.setdefault((c['nw'], scenario_flagset(c['scn'])), []).append(c)
+        groups.setdefault((c['nw'], c.get('na', c['nw']), scenario_flagset(c['scn'])), []).append(c)
     jobs = []
-    for (nw, fs), cs in sorted(groups.items()):
+    for (nw, na, fs), cs in sorted(groups.items()):
         for mode in MODE_ORDER:
-            jobs.append((mode, nw, fs, cs))
+            jobs.append((mode, nw, na, fs, cs))
     n = int(os.environ.get('VERIF_C17_PROCS', str(max(1, min(6, (os.cpu_count() or 2) // 3)))))
     n = max(1, min(n, len(jobs)))
     d = tempfile.mkdtemp(prefix='c17-batch-')
     ctx = multiprocessing.get_context('fork')
     procs = []
     # heavier jobs first, round-robin
-    jobs.sort(key=lambda j: -len(j[3]))
+    jobs.sort(key=lambda j: -len(j[4]))
     for i in range(n):
         path = os.path.join(d, 'w%d.jsonl' % i)
         pr = ctx.Process(target=_cfg_worker, args=(jobs[i::n], path))
         pr.daemon = False
         pr.start()
         procs.append((pr, path))
-    per = max(len(j[3]) for j in jobs)
+    per = max(len(j[4]) for j in jobs)
     deadline = time.time() + (len(jobs) / n + 1) * (40 + 10 * per)
     for pr, path in procs:
         pr.join(max(0.1, deadline - time.time()))
@@ -1400,6 +1691,8 @@ def impl(case):
         return ['local ' + lo['line'], 'threaded ' + th['line']]
     if k == 'fd':
         return [run_fd(case)[0]]
+    if k == 'ho':
+        return [run_ho(case)[0]]
     _observe_live(case)
     return ['live modes-equal=%d' % (1 if _live_sig(case) is None else 0)]
 
@@ -1411,6 +1704,8 @@ def model_lines(case):
         return [_h_model_line(case, 'local', lo['apps']), _h_model_line(case, 'threaded', th['apps'])]
     if k == 'fd':
         return ['modes fds %s %d' % (case['mode'], case['finished'])]
+    if k == 'ho':
+        return ['modes handoff ' + ','.join(str(t) for t in ho_full_sched(case))]
     return ['modes live']
 
 
@@ -1425,6 +1720,8 @@ def oracle(case):
         if case['finished'] and 'open=.' not in line:
             return 'fd: descriptor left open after cleanup (%s mode): %s' % (case['mode'], line)
         return None
+    if k == 'ho':
+        return run_ho(case)[1]
     _observe_live(case)
     return _live_sig(case)
 
@@ -1565,8 +1862,31 @@ def h_systematic(depth):
                     yield h_case(setup, [list(menu[i]) for i in combo], mx, extra, exp, GOOD_FLUSH * 6)
 
 
+def ho_case(k, sched):
+    return {'kind': 'ho', 'k': k, 'sched': list(sched)}
+
+
+def ho_cases(rng, big):
+    import itertools
+    out = []
+    for n in range(0, (7 if not big else 9)):
+        for sch in itertools.product(range(2), repeat=n):
+            out.append(ho_case(2, sch))
+    for n in range(1, (4 if not big else 6)):
+        for sch in itertools.product(range(3), repeat=n):
+            out.append(ho_case(3, sch))
+    for _ in range(40 if not big else 300):
+        k = rng.choice([3, 4, 5])
+        out.append(ho_case(k, [rng.randrange(k) for _ in range(rng.randint(4, 14))]))
+    return out
+
+
 def corpus():
     cs = [d17_witness()]
+    # the interleaving that breaks a hand-off whose address is sent outside the lock
+    cs.append(ho_case(2, [0, 1, 0, 0, 0, 1, 1, 1]))
+    cs.append(ho_case(2, [0, 1]))
+    cs.append(ho_case(3, [0, 1, 2, 0, 1, 2, 2, 1, 0]))
     # CONNECT, upstream data, select timeout, short write, upstream EOF, drain (the example of C17.lean)
     cs.append(h_case('tunnel', [
         ['m0010', 'b', 'b', ['d', {'hex': '010203'}], 'b'], ['m0000', 'b', 'b', 'b', 'b'],
@@ -1592,6 +1912,8 @@ def live_cases(tier, rng):
             out.append(live_case(scn, size, conc, 1))
         for scn, size, conc in (('fwd_post', 50000, 3), ('mixed', 30000, 4), ('tunnel_echo', 20000, 2)):
             out.append(live_case(scn, size, conc, 2))
+        for scn, size, conc in BURSTS:
+            out.append(live_case(scn, size, conc, 1, 4))
     else:
         for nw in (1, 2, 4):
             for scn, size, conc in QUICK_SCENARIOS:
@@ -1601,6 +1923,8 @@ def live_cases(tier, rng):
                                     ('fwd_persistent', 1048576, 2), ('web_static_slow_reader', 1, 2),
                                     ('web_big', 1, 3), ('fwd_close_delim', 3 * 1048576, 2)):
                 out.append(live_case(scn, size, conc, nw))
+            for scn, size, conc in BURSTS + [('burst', 3, 64), ('burst_fwd', 2, 40)]:
+                out.append(live_case(scn, size, conc, nw, 4))
             for _ in range(6):
                 scn = rng.choice(['fwd_post', 'fwd_get_keep', 'fwd_persistent', 'tunnel_echo', 'fwd_chunked',
                                   'fwd_close_delim', 'mixed'])
@@ -1616,6 +1940,8 @@ def generate(rng, tier):
         cases.append(gen_h(rng))
     for _ in range(6 if not big else 40):
         cases.append(gen_h(rng, big=True))
+    cases += ho_cases(rng, big)
+    _prefetch_ho(cases)
     live = live_cases(tier, rng)
     _prefetch(live)
     return cases + live
@@ -1634,7 +1960,8 @@ def neighbours(case):
 
 
 def search(rng):
-    out = list(h_systematic(3))
+    out = list(h_systematic(3)) + ho_cases(rng, False)
+    _prefetch_ho(out)
     out += [gen_h(rng) for _ in range(1500)]
     live = live_cases('quick', rng)
     _prefetch(live)
@@ -1651,7 +1978,9 @@ def describe(case):
                 'h idle-skipped=%d' % min(3, th['calls'] - lo['calls'])]
     if k == 'fd':
         return ['fd ' + case['mode']]
-    return ['live ' + case['scn'], 'live nw=%d' % case['nw'], 'live conc=%d' % case['conc'],
+    if k == 'ho':
+        return ['ho k=%d' % case['k']]
+    return ['live ' + case['scn'], 'live nw=%d na=%d' % (case['nw'], case.get('na', case['nw'])), 'live conc=%d' % case['conc'],
             'live size ' + ('<64K' if case['size'] < 65536 else '<1M' if case['size'] < 1048576 else '>=1M')]
 
 
